@@ -97,32 +97,35 @@ CancelOthers(s, p, keep) ==
 
 \* ---- one complete unit u is consumed by p's end of link l ------------------------------------------------
 \* returns the new [st, wire, sent, winner, result]
-Consume(l, p, u) ==
-  LET s0 == st[l][p] IN
+ConsumeOn(S, l, p, u) ==
+  LET s0 == S.st[l][p] IN
   CASE s0 = "relay" ->
          IF u = "ok"
-         THEN LET w == Write(wire, sent, l, p, MyHS(p)) IN
-              [st |-> [st EXCEPT ![l][p] = "handshake"], wire |-> w.w2, sent |-> w.s2, winner |-> winner, result |-> result]
-         ELSE [st |-> [st EXCEPT ![l][p] = "hung up"], wire |-> wire, sent |-> sent, winner |-> winner, result |-> result]
+         THEN LET w == Write(S.wire, S.sent, l, p, MyHS(p)) IN
+              [st |-> [S.st EXCEPT ![l][p] = "handshake"], wire |-> w.w2, sent |-> w.s2, winner |-> S.winner, result |-> S.result]
+         ELSE [st |-> [S.st EXCEPT ![l][p] = "hung up"], wire |-> S.wire, sent |-> S.sent, winner |-> S.winner, result |-> S.result]
     [] s0 = "handshake" ->
          IF u # ExpectHS(p)
-         THEN [st |-> [st EXCEPT ![l][p] = "hung up"], wire |-> wire, sent |-> sent, winner |-> winner, result |-> result]
+         THEN [st |-> [S.st EXCEPT ![l][p] = "hung up"], wire |-> S.wire, sent |-> S.sent, winner |-> S.winner, result |-> S.result]
          ELSE IF p = "R"
-         THEN [st |-> [st EXCEPT ![l][p] = "wait-for-decision"], wire |-> wire, sent |-> sent, winner |-> winner, result |-> result]
-         ELSE IF winner = "-"
+         THEN [st |-> [S.st EXCEPT ![l][p] = "wait-for-decision"], wire |-> S.wire, sent |-> S.sent, winner |-> S.winner, result |-> S.result]
+         ELSE IF S.winner = "-"
          THEN \* connection_ready: this one wins; "go" is written, negotiation succeeds, connect() fires,
               \* every other contender of S is cancelled
-              LET w == Write(wire, sent, l, p, "go") IN
-              [st |-> CancelOthers([st EXCEPT ![l][p] = "records"], "S", l), wire |-> w.w2, sent |-> w.s2,
-               winner |-> l, result |-> [result EXCEPT !.S = IF @ = "-" /\ started.S THEN l ELSE @]]
-         ELSE LET w == Write(wire, sent, l, p, "nevermind") IN
-              [st |-> [st EXCEPT ![l][p] = "hung up"], wire |-> w.w2, sent |-> w.s2, winner |-> winner, result |-> result]
+              LET w == Write(S.wire, S.sent, l, p, "go") IN
+              [st |-> CancelOthers([S.st EXCEPT ![l][p] = "records"], "S", l), wire |-> w.w2, sent |-> w.s2,
+               winner |-> l, result |-> [S.result EXCEPT !.S = IF @ = "-" /\ started.S THEN l ELSE @]]
+         ELSE LET w == Write(S.wire, S.sent, l, p, "nevermind") IN
+              [st |-> [S.st EXCEPT ![l][p] = "hung up"], wire |-> w.w2, sent |-> w.s2, winner |-> S.winner, result |-> S.result]
     [] s0 = "wait-for-decision" ->
          IF u = "go"
-         THEN [st |-> CancelOthers([st EXCEPT ![l][p] = "records"], "R", l), wire |-> wire, sent |-> sent, winner |-> winner,
-               result |-> [result EXCEPT !.R = IF @ = "-" /\ started.R THEN l ELSE @]]
-         ELSE [st |-> [st EXCEPT ![l][p] = "hung up"], wire |-> wire, sent |-> sent, winner |-> winner, result |-> result]
-    [] OTHER -> [st |-> st, wire |-> wire, sent |-> sent, winner |-> winner, result |-> result]    \* records / hung up: not negotiation
+         THEN [st |-> CancelOthers([S.st EXCEPT ![l][p] = "records"], "R", l), wire |-> S.wire, sent |-> S.sent, winner |-> S.winner,
+               result |-> [S.result EXCEPT !.R = IF @ = "-" /\ started.R THEN l ELSE @]]
+         ELSE [st |-> [S.st EXCEPT ![l][p] = "hung up"], wire |-> S.wire, sent |-> S.sent, winner |-> S.winner, result |-> S.result]
+    [] OTHER -> [st |-> S.st, wire |-> S.wire, sent |-> S.sent, winner |-> S.winner, result |-> S.result]    \* records / hung up: not negotiation
+
+Cur == [st |-> st, wire |-> wire, sent |-> sent, winner |-> winner, result |-> result]
+Consume(l, p, u) == ConsumeOn(Cur, l, p, u)
 
 Deliver(l, p) ==
   /\ Live(st[l][p]) /\ wire[l][Dir(p)] # <<>>
@@ -135,6 +138,26 @@ Deliver(l, p) ==
      /\ got' = [got EXCEPT ![l][p] = Append(@, u)]
      /\ buf' = [buf EXCEPT ![l][p] = ""]
   /\ last' = <<"Deliver", l, p>>
+  /\ UNCHANGED <<started, scriptPos, deadline>>
+
+\* two units arrive in one read (the network coalesced them): the end consumes the first and goes on with the second in the
+\* same call, exactly as if they had come one after the other
+DeliverJoined(l, p) ==
+  /\ AllowPartial /\ Live(st[l][p]) /\ Len(wire[l][Dir(p)]) >= 2 /\ buf[l][p] = ""
+  /\ st[l][p] \in {"relay", "handshake", "wait-for-decision"}
+  /\ ~(Kind[l] = "relay" /\ \E i \in 1..2 : wire[l][Dir(p)][i] = "PR")
+  /\ LET u1 == wire[l][Dir(p)][1]
+         u2 == wire[l][Dir(p)][2]
+         r1 == ConsumeOn(Cur, l, p, u1)
+         r2 == ConsumeOn(r1, l, p, u2)
+         rw1 == IF rwin = "-" /\ p = "R" /\ st[l].R = "wait-for-decision" /\ u1 = "go" THEN l ELSE rwin IN
+     /\ Live(r1.st[l][p])
+     /\ st' = r2.st /\ sent' = r2.sent /\ winner' = r2.winner /\ result' = r2.result
+     /\ rwin' = IF rw1 = "-" /\ p = "R" /\ r1.st[l].R = "wait-for-decision" /\ u2 = "go" THEN l ELSE rw1
+     /\ wire' = [r2.wire EXCEPT ![l][Dir(p)] = Tail(Tail(@))]
+     /\ got' = [got EXCEPT ![l][p] = Append(Append(@, u1), u2)]
+     /\ buf' = buf
+  /\ last' = <<"DeliverJoined", l, p>>
   /\ UNCHANGED <<started, scriptPos, deadline>>
 
 \* a proper prefix of the next unit arrives first: a correct prefix keeps the end waiting, a wrong one
@@ -203,7 +226,7 @@ Deadline(p) ==
   /\ UNCHANGED <<buf, wire, sent, got, winner, rwin, started, scriptPos>>
 
 Next == (\E p \in Party : Start(p)) \/ (\E l \in Links : Established(l) \/ RelayOk(l) \/ OutsiderSend(l) \/ LateDial(l)
-                                   \/ \E p \in Party : Deliver(l, p) \/ DeliverPart(l, p) \/ PeerGone(l, p))
+                                   \/ \E p \in Party : Deliver(l, p) \/ DeliverPart(l, p) \/ DeliverJoined(l, p) \/ PeerGone(l, p))
         \/ (\E p \in Party : Deadline(p))
 Spec == Init /\ [][Next]_vars /\ WF_vars(Next)
 
